@@ -1,12 +1,12 @@
 #!/bin/sh
 # usage: tools/mut.sh <patch.diff> <ID> [<ID>...]   — apply patch to /repo, run quick checks, revert.
-# Prints one line per check: <ID> rc=<n>.
+# env ONLY=<job regex> restricts the jobs; TIER, VERBOSE=<n lines>.
 P="$1"; shift
 cd /repo || exit 2
 if ! git diff --quiet; then echo "repo dirty"; exit 2; fi
 git apply "$P" || { echo "patch does not apply: $P"; exit 2; }
 for id in "$@"; do
-  out=$(cd /verif && ./check "$id" --tier "${TIER:-quick}" 2>&1); rc=$?
+  if [ -n "$ONLY" ]; then out=$(cd /verif && ./check "$id" --tier "${TIER:-quick}" --only "$ONLY" 2>&1); else out=$(cd /verif && ./check "$id" --tier "${TIER:-quick}" 2>&1); fi; rc=$?
   echo "$id rc=$rc $(echo "$out" | grep -E '^(VIOLATION|INCONCLUSIVE|KNOWN)' | head -3 | tr '\n' ' ')"
   [ -n "$VERBOSE" ] && echo "$out" | grep -v 'rapid\] draw' | tail -${VERBOSE}
 done
